@@ -61,4 +61,10 @@ theorem goCopy_length (q src : List α) : (goCopy q src).length = q.length := by
 theorem goCopy_le (q src : List α) (h : src.length ≤ q.length) : goCopy q src = src ++ q.drop src.length := by
   simp only [goCopy, List.take_of_length_le h]
 
+/-- a store at the first cell behind a prefix -/
+theorem set_append_length (x y : α) (rest : List α) : ∀ pre : List α,
+    (pre ++ y :: rest).set pre.length x = pre ++ x :: rest
+  | [] => rfl
+  | a :: pre => by simp only [List.cons_append, List.length_cons, List.set_cons_succ, set_append_length x y rest pre]
+
 end Gts.Gen
